@@ -3,19 +3,21 @@
    the code before the repair is kept as [..._before_fix_refuted] witnesses.  The model is tied to
    trajectories/store.py by running [run_case] inside Coq against real NetCDF stores (harness/c03.py). *)
 From Coq Require Import ZArith List String Bool Arith.
-From AV Require Import model.C03_Model proofs.C03_Proofs proofs.C03_Store proofs.C03_Files proofs.C03_Facts.
+From AV Require Import model.C03_Model proofs.C03_Proofs proofs.C03_Store proofs.C03_Files proofs.C03_Facts proofs.C03_Typed.
 Import ListNotations.
 
 (* One field, every one of the six dimension shapes and every scalar kind: whatever fits the field
-   (fits n L m v: the right shape, arrays of the trajectory's length, species among those of the
-   file's species dimension L, no value equal to the NetCDF fill sentinel) is accepted by the writer,
-   and any reader that sees exactly the written cells (and fill everywhere else) returns the value
-   in normal form — the species in the order of L, an optional value without entries as unset. *)
+   (fits_typed n L m v: the right shape AND type — integers in the range of the field's integer type, bit
+   patterns of binary32/binary64 numbers, strings; arrays of the trajectory's length; species among those of
+   the file's species dimension L; no value equal to the NetCDF fill sentinel — exactly the domain the
+   generators draw from) is accepted by the writer, and any reader that sees exactly the written cells (and
+   fill everywhere else) returns the value in normal form — the species in the order of L, an optional value
+   without entries as unset. *)
 Theorem C03_roundtrip_field :
-  forall n L m v, NoDup L -> fits n L m v ->
+  forall n L m v, NoDup L -> fits_typed n L m v ->
   exists ps, field_patches true L m v = inl ps /\
              forall g, reads_patches m ps g -> read_field true L m g = canon L m v.
-Proof. exact roundtrip_field. Qed.
+Proof. exact roundtrip_field_typed. Qed.
 Print Assumptions C03_roundtrip_field.
 
 (* Exactly the species that were present: looking any species up in what was read gives what
@@ -26,10 +28,16 @@ Theorem C03_species_exact :
 Proof. exact @species_exact. Qed.
 Print Assumptions C03_species_exact.
 
-(* None lost on ANY write path (add, save of an in-memory store, create_associated): all three write through
-   the same guarded writer; it accepts a species-indexed value only if every species of it has a place in the
-   file's species dimension and refuses (ValueError) otherwise — and what it accepts reads back with exactly
-   its species (C03_species_exact). *)
+(* None lost: the repaired writer ([field_patches true]) accepts a species-indexed value only if every species
+   of it has a place in the file's species dimension and refuses (ValueError) otherwise — and what it accepts
+   reads back with exactly its species (C03_species_exact).
+   That add(), save() of an in-memory store and create_associated() all reach THIS writer is a fact about
+   store.py, not a theorem: it rests on the extractor (translator/c03_extract.py: the unknown-species guard sits
+   inside _write_to_nc_var, which is the one writer called from _write_data, reached from _write_trajectory and
+   from create_associated) through link/C03_Link.v (`facts = facts_of true`,
+   cf_write_refuses_unknown_species) and proofs/C03_Facts.v (field_patches_by_case), and on the correspondence
+   (forced species-growth cases on the save() and create_associated paths).  The third theorem below only
+   records how the MODEL's three paths are defined (it holds by unfolding). *)
 Theorem C03_accepted_species_are_in_dimension :
   forall L m v ps, field_patches true L m v = inl ps ->
   match v with
@@ -98,6 +106,40 @@ Theorem C03_roundtrip_store :
       load_traj true sc rorder i st = inl (map snd (expect sc (s_species st0) rorder t)).
 Proof. exact store_roundtrip. Qed.
 Print Assumptions C03_roundtrip_store.
+
+(* The normal form is the value itself: with ascending species keys inside an ascending species dimension, and
+   unless the value is an optional species-indexed mapping without any species (which is the unset value). *)
+Theorem C03_normal_form_is_the_value :
+  forall n L m v,
+  fits n L m v -> ascending L -> keys_ascending v -> (keys_of v <> [] \/ fm_req m = true) -> canon L m v = v.
+Proof. exact canon_identity_nonempty. Qed.
+Print Assumptions C03_normal_form_is_the_value.
+
+(* Hence, literally: for typed values in normal form and a schema whose species-indexed fields are not strings
+   (F-C03e), every add succeeds and every trajectory reads back as EXACTLY the list of values that was added
+   ([written_values]); no_holes is discharged, canon has disappeared. *)
+Theorem C03_roundtrip_store_literal :
+  forall sc order rorder ts st0,
+  NoDup order -> incl rorder order -> s_cells st0 = [] -> species_ascending (s_species st0) ->
+  no_string_species_fields sc rorder ->
+  (forall t, In t ts -> traj_normal sc rorder t /\
+                        exists n, forall fs, In fs order -> set_fits_typed n sc (s_species st0) t fs) ->
+  exists st, add_all true sc order 0 ts st0 = (st, None) /\
+    forall i t, nth_error ts i = Some t -> has_array sc rorder t ->
+      load_traj true sc rorder i st = inl (written_values rorder t).
+Proof. exact store_roundtrip_literal. Qed.
+Print Assumptions C03_roundtrip_store_literal.
+
+Theorem C03_roundtrip_store_without_string_species_fields :
+  forall sc order rorder ts st0,
+  NoDup order -> incl rorder order -> s_cells st0 = [] ->
+  no_string_species_fields sc rorder ->
+  (forall t, In t ts -> exists n, forall fs, In fs order -> set_fits n sc (s_species st0) t fs) ->
+  exists st, add_all true sc order 0 ts st0 = (st, None) /\ s_species st = s_species st0 /\
+    forall i t, nth_error ts i = Some t -> has_array sc rorder t ->
+      load_traj true sc rorder i st = inl (map snd (expect sc (s_species st0) rorder t)).
+Proof. exact store_roundtrip_no_string_species. Qed.
+Print Assumptions C03_roundtrip_store_without_string_species_fields.
 
 (* The same when part of the field sets is produced afterwards by mapping a function over the store
    (create_associated): a second pass of writes into a further file with its own species dimension. *)
